@@ -195,10 +195,11 @@ def programs(thorough):
 
 # ------------------------------------------------------------------ reading the folded result
 def read_back(r):
-    if not isinstance(r, Stub) or not isinstance(r.attrs.get("_captions"), dict) or len(r.attrs["_captions"]) != 1:
+    from .foldutil import captions_by_language
+    by_lang = captions_by_language(r, what="SCCReader.read")
+    if len(by_lang) != 1:
         raise AnalysisError("SCCReader.read: folded result is not a one-language CaptionSet")
-    lst = list(r.attrs["_captions"].values())[0]
-    lst = lst.attrs["__list__"] if isinstance(lst, Stub) else lst
+    lst = list(by_lang.values())[0]
     out = []
     for c in lst:
         lines, cur, ital, on, depth_bad = [], "", "", False, False
